@@ -99,10 +99,17 @@ def main():
         loads = [n for n in ast.walk(tree) if isinstance(n, ast.Name) and isinstance(n.ctx, ast.Load)
                  and 1 <= n.lineno <= len(lines) and ascii_line[n.lineno - 1]]
         rng.shuffle(loads)
+        # ... and of attribute accesses (cursor inside the attribute name)
+        attrs = [n for n in ast.walk(tree) if isinstance(n, ast.Attribute) and isinstance(n.ctx, ast.Load) and n.end_lineno == n.lineno
+                 and 1 <= n.lineno <= len(lines) and ascii_line[n.lineno - 1]]
+        rng.shuffle(attrs)
         nloc = 0
-        for n in loads[:job.get('nloc', 10)]:
+        line0 = 0
+        points = [(n, (n.lineno, n.col_offset + (1 if len(n.id) > 1 else len(n.id))), n.id) for n in loads[:job.get('nloc', 10)]]
+        points += [(n, (n.end_lineno, n.end_col_offset - 1), n.attr) for n in attrs[:max(2, job.get('nloc', 10) // 3)]]
+        for n, cur, ident in points:
             try:
-                res = assistant.location(project, src, (n.lineno, n.col_offset + (1 if len(n.id) > 1 else len(n.id))), fn)
+                res = assistant.location(project, src, cur, fn)
             except Exception:
                 continue
             flat = []
@@ -112,6 +119,11 @@ def main():
                 if r.get('file') != fn or not r.get('loc'):
                     continue
                 pos = tuple(r['loc'])
+                if pos == (0, 0):
+                    # open finding C11-dotted-import-line0: the wrapper object of a dotted import is reported at line 0
+                    # (pinned by tests/test_assistant_location.py); excluded here, observed through the pinned input
+                    line0 += 1
+                    continue
                 if 1 <= pos[0] <= len(lines) and not ascii_line[pos[0] - 1]:
                     continue
                 if 1 <= pos[0] <= len(lines) and lines[pos[0] - 1][pos[1]:pos[1] + 1] == '*' and 'import' in lines[pos[0] - 1]:
@@ -119,7 +131,11 @@ def main():
                 kind = 'except' if pos in handler_pos else 'name'
                 # which binding is it? the one the module enumeration lists at that position (else a case of its own)
                 cands = [k for k in bind if k[0] == pos[0] and k[1] == pos[1]]
-                name = cands[0][2] if cands else n.id
+                if not cands and isinstance(n, ast.Attribute):
+                    # an attribute-assignment site (`self.x = ...` is reported at the start of the target expression, as
+                    # tests/test_assistant_location.py expects): attribute definitions are C06's subject, not name bindings
+                    continue
+                name = cands[0][2] if cands else ident
                 c = bind.get((pos[0], pos[1], name)) or case_for(name, pos, kind)
                 report(c, 'location', pos, 6 if c['kind'] == 'except' else len(name))
                 nloc += 1
@@ -127,7 +143,7 @@ def main():
         for key in sorted(bind):
             c = bind[key]
             cases.append(c)
-        out.append({'id': job['id'], 'cases': cases, 'nloc': nloc})
+        out.append({'id': job['id'], 'cases': cases, 'nloc': nloc, 'line0': line0})
     json.dump(out, sys.stdout)
 
 
